@@ -48,43 +48,51 @@ var tap *Tap
 
 // mirror mode: the mapping is ordinary memory kept coherent through the write hook (see DESIGN.md 2.7).
 type mapping struct {
-	buf  []byte
-	size int
+	buf   []byte
+	size  int
+	dirty int // bytes [0,dirty) may hold something other than zero
+	fsize int // current length of the data file (tracked through the hooks)
+}
+
+type region struct {
+	buf   []byte
+	dirty int
 }
 
 var (
 	mirrors    = map[*bolt.DB]*mapping{}
-	regionPool = map[int][][]byte{}
+	regionPool = map[int][]region{}
 	// RealMmap disables the mirror: the database uses the real mmap system call.
 	RealMmap = os.Getenv("VERIF_REAL_MMAP") != ""
 )
 
 const poisonByte = 0xDB
 
-func getRegion(sz int) []byte {
+// getRegion returns a pooled region and the extent of it that may be non-zero.
+func getRegion(sz int) region {
 	if l := regionPool[sz]; len(l) > 0 {
-		b := l[len(l)-1]
+		r := l[len(l)-1]
 		regionPool[sz] = l[:len(l)-1]
-		return b
+		return r
 	}
 	b, err := syscall.Mmap(-1, 0, sz, syscall.PROT_READ|syscall.PROT_WRITE, syscall.MAP_ANON|syscall.MAP_PRIVATE)
 	if err != nil {
 		panic(fmt.Sprintf("harness: anonymous mmap of %d bytes: %v", sz, err))
 	}
-	return b
+	return region{buf: b}
 }
 
-func putRegion(b []byte) {
-	n := len(b)
-	if n > 1<<20 {
-		n = 1 << 20
+// putRegion poisons the part of the region that was in use (a use-after-unmap then reads garbage, not stale data).
+func putRegion(b []byte, dirty int) {
+	if dirty > len(b) {
+		dirty = len(b)
 	}
-	p := b[:n]
+	p := b[:dirty]
 	for i := range p {
 		p[i] = poisonByte
 	}
 	if len(regionPool[len(b)]) < 8 {
-		regionPool[len(b)] = append(regionPool[len(b)], b)
+		regionPool[len(b)] = append(regionPool[len(b)], region{buf: b, dirty: dirty})
 	} else {
 		_ = syscall.Munmap(b)
 	}
@@ -96,40 +104,63 @@ func mapHook(db *bolt.DB, sz int) ([]byte, error) {
 	if err != nil {
 		return nil, err
 	}
-	b := getRegion(sz)
+	r := getRegion(sz)
+	b := r.buf
 	n := int(fi.Size())
 	if n > sz {
 		n = sz
 	}
 	if n > 0 {
 		if _, err := f.ReadAt(b[:n], 0); err != nil {
-			putRegion(b)
+			putRegion(b, r.dirty)
 			return nil, err
 		}
 	}
-	// beyond the end of the file a real mapping would fault; zeros are the closest harmless stand-in
-	z := b[n:]
-	lim := len(z)
-	if lim > 1<<20 {
-		lim = 1 << 20
+	// beyond the end of the file a real mapping would fault; zeros are the closest harmless stand-in.
+	// Only the part a previous user may have left non-zero needs clearing.
+	for i := n; i < r.dirty; i++ {
+		b[i] = 0
 	}
-	for i := 0; i < lim; i++ {
-		z[i] = 0
+	d := r.dirty
+	if n > d {
+		d = n
 	}
-	mirrors[db] = &mapping{buf: b, size: sz}
+	mirrors[db] = &mapping{buf: b, size: sz, dirty: d, fsize: int(fi.Size())}
 	return b, nil
 }
 
 func unmapHook(db *bolt.DB, b []byte) error {
+	d := len(b)
+	if m := mirrors[db]; m != nil {
+		d = m.dirty
+	}
 	delete(mirrors, db)
-	putRegion(b)
+	putRegion(b, d)
 	return nil
 }
 
 func mirrorWrite(db *bolt.DB, off int64, data []byte) {
 	if m := mirrors[db]; m != nil && off < int64(len(m.buf)) {
-		copy(m.buf[off:], data)
+		n := copy(m.buf[off:], data)
+		if e := int(off) + n; e > m.dirty {
+			m.dirty = e
+		}
 	}
+	if m := mirrors[db]; m != nil {
+		if e := int(off) + len(data); e > m.fsize {
+			m.fsize = e
+		}
+	}
+}
+
+// MirrorBytes returns a copy of the data file's content taken from the coherent mirror (no file I/O); ok=false
+// when db has no mirror (real mmap mode) or the file is longer than the mirror.
+func MirrorBytes(db *bolt.DB) ([]byte, bool) {
+	m := mirrors[db]
+	if m == nil || m.fsize > len(m.buf) {
+		return nil, false
+	}
+	return append([]byte{}, m.buf[:m.fsize]...), true
 }
 
 // MirrorCoherent compares the mirror of db with the file (detects stray stores into the "mapping").
@@ -169,6 +200,11 @@ func ioHook(db *bolt.DB, op bolt.VerifOp, off int64, buf []byte) error {
 	}
 	if op == bolt.VerifWrite {
 		mirrorWrite(db, off, buf)
+	}
+	if op == bolt.VerifTruncate {
+		if m := mirrors[db]; m != nil {
+			m.fsize = int(off)
+		}
 	}
 	return nil
 }
